@@ -63,7 +63,10 @@ def handlers(inner):
           # handler EXPRESSIONS that run code before a handler exists: no condition is being handled yet by this
           # handler-bind while they are evaluated (capture shows what is; rethrow belongs to an enclosing handler or fails)
           [S("progn"), [S("capture")], L([S("probe"), Q(S("H5")), S("c"), S("r")], [S("capture")], Q(S("val5")))],
-          [S("progn"), [S("capture")], [S("rethrow")]]]
+          [S("progn"), [S("capture")], [S("rethrow")]],
+          # the handler is itself a host builtin that panics: the panic unwinds through handler-bind's own activation
+          # with no evaluation of a lambda body in between (the condition must still be popped)
+          S("boom")]
     if inner is not None:
         hs.append(L([S("probe"), Q(S("H2")), S("c")], inner, [S("probe"), Q(S("after-inner"))]))   # (always the LAST element)
     return hs
@@ -140,11 +143,12 @@ def _run(V, work, tier):
     for i, e in enumerate(es):
         forms = [[S("probe"), Q(S("value")), e], [S("probe"), Q(S("end"))]]
         # two evaluations: the expression as the value of a form, and the expression as the last form (error reaches the host)
-        evals = [forms, [e]]
+        # ... and afterwards, at rest: nothing is being handled (capture answers 0) and rethrow is an error
+        evals = [forms, [e], [[S("capture")], [S("rethrow")]]]
         recs.append(mach.prog_record(i, evals, {}))
         drv.append({"id": i, "seq": [P.src(f) for f in evals], "cfg": {}})
     model, res = mach.run_machine(work, recs, timeout=3000)
-    V.tlc(res, "Machine: %d handler nestings x 2 positions" % len(es))
+    V.tlc(res, "Machine: %d handler nestings x 2 positions + rethrow at rest" % len(es))
     if res.violated:
         raise MachineryError("Machine invariant %s violated in the model:\n%s" % (res.violated, res.raw[-2000:]))
     if len(model) != len(recs):
